@@ -58,7 +58,7 @@ func (c *EventCache) Add(event *Event) (added bool) {
 		return true
 	}
 
-	if c.isDeleted(eventKey, event.Pubkey) {
+	if c.isDeleted(eventKey, event.Pubkey) || c.isDeleted(event.ID, event.Pubkey) {
 		return false
 	}
 
@@ -115,7 +115,15 @@ func (c *EventCache) deleteByKind5(event *Event) {
 	keys := c.getEventKeyFromKind5Tags(event)
 
 	for _, key := range keys {
-		c.delete(eventCacheDeletedEventKey{key, event.Pubkey})
+		if c.delete(eventCacheDeletedEventKey{key, event.Pubkey}) {
+			continue
+		}
+		// An e tag may reference a replaceable or addressable event by its id;
+		// those are stored under their address, so look the event up by id.
+		for ev := range c.evsIndex.idx[eventCacheEvsIndexKey{eventCacheEvsIndexKeyWhatID, key}] {
+			c.delete(eventCacheDeletedEventKey{c.getEventKey(ev), event.Pubkey})
+			break
+		}
 	}
 }
 
